@@ -31,10 +31,11 @@ type ctxKey struct{}
 
 // what one call through a shared instance is scripted to meet
 type callState struct {
-	in  inner
-	beh map[string][]string // level -> behaviour per configured position (this call)
-	mu  sync.Mutex
-	log []event
+	in     inner
+	beh    map[string][]string // level -> behaviour per configured position (this call)
+	mu     sync.Mutex
+	log    []event
+	handed *proxy.Response // the response the stub handed in for this call
 }
 
 func (cs *callState) add(e event) {
@@ -50,7 +51,11 @@ func ctxStub(ctx context.Context, _ *proxy.Request) (*proxy.Response, error) {
 		return nil, innerErr{"no call state in the context"}
 	}
 	cs.add(event{kind: "backend"})
-	return cs.in.result()
+	r, err := cs.in.result()
+	cs.mu.Lock()
+	cs.handed = r
+	cs.mu.Unlock()
+	return r, err
 }
 
 func callShared(p proxy.Proxy, cs *callState) (o observed) {
@@ -159,7 +164,10 @@ func withBeh(ps pshape, b map[int]string) (pshape, []string) {
 	return q, l
 }
 
-func (si *sharedInst) run(st step) (term string, js map[string]interface{}, canon string) {
+func (si *sharedInst) run(st step, scribble bool) (term string, js map[string]interface{}, canon string) {
+	defer func() {
+		_ = recover() // scribbling never fails a case
+	}()
 	pe, le := withBeh(si.pe, st.eb)
 	pb, lb := withBeh(si.pb, st.bb)
 	cs := &callState{in: st.in, beh: map[string][]string{"E": le, "B": lb}}
@@ -167,6 +175,19 @@ func (si *sharedInst) run(st step) (term string, js map[string]interface{}, cano
 		cs.beh = map[string][]string{si.lv: le}
 	}
 	o := callShared(si.p, cs)
+	if scribble {
+		// after the observation has been rendered (below), the harness - as the consumer of
+		// the result, like merge / flatmap / in-place modifiers downstream - writes into the
+		// returned response and into the response the stub handed in: later calls through the
+		// same instance must not see any of it
+		defer func() {
+			scribbleOn(o.resp)
+			cs.mu.Lock()
+			h := cs.handed
+			cs.mu.Unlock()
+			scribbleOn(h)
+		}()
+	}
 	switch si.kind {
 	case "static":
 		term = emit.App("CStatic", si.s.coq(), st.in.coqResp(), st.in.coqErr(), o.outcomeCoq())
@@ -181,13 +202,41 @@ func (si *sharedInst) run(st step) (term string, js map[string]interface{}, cano
 		js = map[string]interface{}{"kind": "stack", "static": si.s.js(), "endpoint_plugins": pe.String(), "backend_plugins": pb.String(), "inner": st.in.js(), "observed": o.js()}
 		canon = si.id + "|" + pe.String() + "|" + pb.String() + "|" + st.in.key()
 	}
+	if scribble {
+		js = cloneJSON(js).(map[string]interface{}) // the record must not alias what is scribbled on
+	}
 	return
+}
+
+// top level only: add a junk key, delete the first key, overwrite the others, flip the flag
+// (nested values of the static data are shared by reference by the code as it is)
+func scribbleOn(r *proxy.Response) {
+	if r == nil {
+		return
+	}
+	r.IsComplete = !r.IsComplete
+	if r.Data == nil {
+		return
+	}
+	keys := make([]string, 0, len(r.Data))
+	for k := range r.Data {
+		keys = append(keys, k)
+	}
+	sort.Strings(keys)
+	for i, k := range keys {
+		if i == 0 {
+			delete(r.Data, k)
+		} else {
+			r.Data[k] = "scribbled-by-consumer"
+		}
+	}
+	r.Data["verif-junk"] = "never configured"
 }
 
 // sequential reuse: every step a case, in order
 func (si *sharedInst) sequence(w *out.Writer, tag string, steps []step) {
 	for i, st := range steps {
-		term, js, canon := si.run(st)
+		term, js, canon := si.run(st, true)
 		js["reuse"] = fmt.Sprintf("%s: step %d of %d through one %s instance", tag, i+1, len(steps), si.kind)
 		w.Count("reuse:seq:" + si.kind)
 		w.Add(term, js, "", "RS|"+tag+"|"+canon+fmt.Sprint(i), true)
@@ -258,7 +307,7 @@ func concChild(cfg out.Config) {
 				<-start
 				for it := 0; it < iters; it++ {
 					j := (k*5 + it) % len(b.steps)
-					term, js, canon := si.run(b.steps[j])
+					term, js, canon := si.run(b.steps[j], false)
 					key := fmt.Sprintf("%03d|%s", j, term)
 					if _, ok := res[k][key]; !ok {
 						res[k][key] = concRec{key, term, js, canon}
@@ -301,8 +350,8 @@ func (b concBatch) run(cfg out.Config, w *out.Writer) {
 	leaks := false
 	for round := 0; round < 2; round++ {
 		for j, st := range b.steps {
-			term, js, canon := si.run(st)
-			ft, _, _ := si.fresh().run(st)
+			term, js, canon := si.run(st, true)
+			ft, _, _ := si.fresh().run(st, false)
 			if ft != term {
 				leaks = true
 			}
